@@ -135,6 +135,8 @@ pub enum PollAt {
     AtWait,
     /// `ms` before the last WaitUntil (clamped to now)
     Before(u64),
+    /// `us` MICROseconds before the last WaitUntil (clamped to now): just inside the last millisecond
+    BeforeUs(u64),
     /// half way between now and the last WaitUntil
     Half,
     /// `ms` after the last WaitUntil (or after now)
@@ -150,6 +152,10 @@ pub enum Op {
     Response { tid: u8, from: u8, error: bool, seal: RespSeal, fp: bool },
     Incoming { request: bool, tid: u8, from: u8 },
     /// `count` indications, one from each of the addresses first, first+1, ... (indices may exceed u8)
+    /// a request / indication carrying MESSAGE-INTEGRITY computed under creds(cred) (correctly, or with
+    /// one bit of the HMAC flipped): the agent hands every incoming request / indication back and
+    /// validates its sender, whatever it carries
+    IncomingSigned { request: bool, tid: u8, from: u8, cred: u8, good: bool },
     IncomingBurst { first: u16, count: u16 },
     /// `count` requests with the ids of indices first, first+1, ... (>= NTID), all at the current instant
     SendBurst { first: u16, count: u16 },
@@ -163,6 +169,10 @@ pub enum Op {
     /// StunAgent::send_data of `len` arbitrary bytes: produces a Transmit, changes nothing
     SendData { dest: u8, len: u16 },
     Advance(u64),
+    /// run the inner operation (a poll, a response, an incoming message) through
+    /// `mut_request_transaction(holder).mut_agent()` instead of the agent itself, then ask the handle
+    /// for its peer address: a handle names its transaction, whatever happens to the others meanwhile
+    Via { holder: u8, inner: Box<Op> },
     /// advance the virtual clock by a number of MICROseconds (changes the sub-millisecond phase)
     AdvanceUs(u64),
     /// move the virtual clock BACK by a number of milliseconds (a caller handing in a stale instant);
@@ -222,12 +232,14 @@ impl Op {
             Op::Poll(at) => match at {
                 PollAt::AtWait => json!({"op": "poll", "at": "wait"}),
                 PollAt::Before(ms) => json!({"op": "poll", "at": "before", "ms": ms}),
+                PollAt::BeforeUs(us) => json!({"op": "poll", "at": "before_us", "us": us}),
                 PollAt::Half => json!({"op": "poll", "at": "half"}),
                 PollAt::After(ms) => json!({"op": "poll", "at": "after", "ms": ms}),
                 PollAt::Now => json!({"op": "poll", "at": "now"}),
             },
             Op::Response { tid, from, error, seal, fp } => json!({"op": "response", "tid": tid, "from": from, "error": error, "seal": seal_json(seal), "fp": fp}),
             Op::Incoming { request, tid, from } => json!({"op": "incoming", "request": request, "tid": tid, "from": from}),
+            Op::IncomingSigned { request, tid, from, cred, good } => json!({"op": "incoming_signed", "request": request, "tid": tid, "from": from, "cred": cred, "good": good}),
             Op::IncomingBurst { first, count } => json!({"op": "incoming_burst", "first": first, "count": count}),
             Op::SendBurst { first, count } => json!({"op": "send_burst", "first": first, "count": count}),
             Op::Cancel(t) => json!({"op": "cancel", "tid": t}),
@@ -237,6 +249,7 @@ impl Op {
             Op::SetLocal(c) => json!({"op": "set_local", "creds": c}),
             Op::SendData { dest, len } => json!({"op": "send_data", "dest": dest, "len": len}),
             Op::Advance(ms) => json!({"op": "advance", "ms": ms}),
+            Op::Via { holder, inner } => json!({"op": "via", "holder": holder, "inner": inner.to_json()}),
             Op::AdvanceUs(us) => json!({"op": "advance_us", "us": us}),
             Op::Rewind(ms) => json!({"op": "rewind", "ms": ms}),
         }
@@ -264,12 +277,14 @@ impl Op {
             "poll" => Op::Poll(match v.get("at")?.as_str()? {
                 "wait" => PollAt::AtWait,
                 "before" => PollAt::Before(u("ms")?),
+                "before_us" => PollAt::BeforeUs(u("us")?),
                 "half" => PollAt::Half,
                 "after" => PollAt::After(u("ms")?),
                 _ => PollAt::Now,
             }),
             "response" => Op::Response { tid: u("tid")? as u8, from: u("from")? as u8, error: v.get("error")?.as_bool()?, seal: seal_from(v.get("seal")?)?, fp: v.get("fp")?.as_bool()? },
             "incoming" => Op::Incoming { request: v.get("request")?.as_bool()?, tid: u("tid")? as u8, from: u("from")? as u8 },
+            "incoming_signed" => Op::IncomingSigned { request: v.get("request")?.as_bool()?, tid: u("tid")? as u8, from: u("from")? as u8, cred: u("cred")? as u8, good: v.get("good")?.as_bool()? },
             "incoming_burst" => Op::IncomingBurst { first: u("first")? as u16, count: u("count")? as u16 },
             "send_burst" => Op::SendBurst { first: (u("first")? as u16).max(NTID as u16), count: u("count")? as u16 },
             "cancel" => Op::Cancel(u("tid")? as u8),
@@ -279,6 +294,7 @@ impl Op {
             "set_local" => Op::SetLocal(u("creds")? as u8),
             "send_data" => Op::SendData { dest: u("dest")? as u8, len: u("len")? as u16 },
             "advance" => Op::Advance(u("ms")?),
+            "via" => Op::Via { holder: u("holder")? as u8, inner: Box::new(Op::from_json(v.get("inner")?)?) },
             "advance_us" => Op::AdvanceUs(u("us")?),
             "rewind" => Op::Rewind(u("ms")?),
             _ => return None,
@@ -551,6 +567,10 @@ struct Eng<'c> {
     rec: Option<Vec<String>>,
     /// address indices >= NCORE that were handed to the agent (observed from then on)
     touched: std::collections::BTreeSet<usize>,
+    /// route the next agent calls through the request handle of this transaction index
+    via: Option<usize>,
+    /// what the handle said about its peer address after the routed call (None = handle's transaction gone)
+    via_peer: Option<Option<SocketAddr>>,
     /// transaction-id indices >= NTID in use (observed periodically and at the end)
     touched_tids: std::collections::BTreeSet<usize>,
     observe_count: u64,
@@ -638,6 +658,23 @@ impl<'c> Eng<'c> {
         let trap = self.cfg.trap_clock;
         let sub = self.cfg.with_subscriber;
         let agent = &mut self.agent;
+        let via = self.via;
+        let mut via_peer: Option<Option<SocketAddr>> = None;
+        let via_peer_ref = &mut via_peer;
+        let f = move |a: &mut StunAgent| {
+            // optionally through a request handle's mut_agent()
+            if let Some(h) = via {
+                let id = imp::tid_from_bytes(&tid_bytes(h));
+                if a.request_transaction(id).is_some() {
+                    let mut handle = a.mut_request_transaction(id).expect("outstanding");
+                    let r = f(handle.mut_agent());
+                    let alive = handle.agent().request_transaction(id).is_some();
+                    *via_peer_ref = Some(if alive { Some(handle.peer_address()) } else { None });
+                    return r;
+                }
+            }
+            f(a)
+        };
         let r = guard(|| {
             let run = || if trap { clock::trapped(|| f(agent)) } else { (f(agent), 0) };
             if sub {
@@ -646,6 +683,9 @@ impl<'c> Eng<'c> {
                 run()
             }
         });
+        if via_peer.is_some() {
+            self.via_peer = via_peer;
+        }
         match r {
             Ok((v, reads)) => {
                 self.res.clock_reads += reads;
@@ -1268,6 +1308,7 @@ impl<'c> Eng<'c> {
                 let target = match (at, self.last_wait) {
                     (PollAt::AtWait, Some(w)) => w,
                     (PollAt::Before(ms), Some(w)) => w.saturating_sub(*ms * 1000),
+                    (PollAt::BeforeUs(us), Some(w)) => w.saturating_sub(*us),
                     (PollAt::Half, Some(w)) => self.now + (w.saturating_sub(self.now)) / 2,
                     (PollAt::After(ms), Some(w)) => w + ms * 1000,
                     (PollAt::After(ms), None) => self.now + ms * 1000,
@@ -1303,6 +1344,12 @@ impl<'c> Eng<'c> {
             Op::Incoming { request, tid, from } => {
                 let b = build_incoming(*request, *tid, self.step as u16);
                 self.do_handle(b, *from as usize, false, *tid);
+            }
+            Op::IncomingSigned { request, tid, from, cred, good } => {
+                let mut b = build_incoming(*request, *tid, self.step as u16);
+                crate::refimpl::parse::seal(&mut b, if *good { Seal::Sha1 } else { Seal::BadSha1 }, &creds(*cred as usize).key());
+                self.do_handle(b, *from as usize, false, *tid);
+                self.ctx.count("signed-incoming-messages");
             }
             Op::IncomingBurst { first, count } => {
                 for j in 0..*count as usize {
@@ -1398,6 +1445,31 @@ impl<'c> Eng<'c> {
             }
             Op::Advance(ms) => {
                 self.now += ms * 1000;
+            }
+            Op::Via { holder, inner } => {
+                let h = *holder as usize % NTID;
+                if matches!(**inner, Op::Poll(_) | Op::Response { .. } | Op::Incoming { .. } | Op::IncomingSigned { .. }) {
+                    self.via = Some(h);
+                    self.via_peer = None;
+                    self.step_op(inner);
+                    self.via = None;
+                    if let Some(Some(got)) = self.via_peer.take() {
+                        // the handle's transaction is still outstanding: it still names the same peer
+                        if let Some(tx) = self.model.txs.get(&h) {
+                            if got != addr(tx.to) && !self.failed {
+                                self.fail(
+                                    "C18",
+                                    "peer-address",
+                                    "StunRequestMut::peer_address",
+                                    "handle-held-across-calls",
+                                    format!("{} (the destination of tid#{h})", addr(tx.to)),
+                                    format!("{got}"),
+                                );
+                            }
+                        }
+                        self.ctx.count("calls-through-request-handle");
+                    }
+                }
             }
             Op::Rewind(ms) => {
                 self.now = self.now.saturating_sub(ms * 1000);
@@ -1497,6 +1569,8 @@ pub fn run_history(ctx: &mut Ctx, h: &History, cfg: &RunCfg) -> RunResult {
         step: 0,
         rec: None,
         touched: Default::default(),
+        via: None,
+        via_peer: None,
         touched_tids: Default::default(),
         observe_count: 0,
         last_obs: String::new(),
@@ -1597,7 +1671,13 @@ pub fn gen_configure(rng: &mut Rng, tid: u8) -> Op {
 pub fn gen_poll(rng: &mut Rng) -> Op {
     Op::Poll(match rng.below(14) {
         0..=4 => PollAt::AtWait,
-        5 => PollAt::Before(1),
+        5 => {
+            if rng.chance(1, 2) {
+                PollAt::Before(1)
+            } else {
+                PollAt::BeforeUs(*rng.pick(&[1u64, 2, 500, 998, 999]))
+            }
+        }
         6 => PollAt::Half,
         7 => PollAt::Before(1 + rng.below(400)),
         8 => PollAt::After(1),
@@ -1640,7 +1720,8 @@ pub fn gen_history(rng: &mut Rng, len: usize, ntid: u8, emphasis: &str) -> Histo
                 58..=63 => Op::SetRemote(rng.below(3) as u8),
                 64..=65 => Op::SetLocal(rng.below(3) as u8),
                 66..=89 => gen_poll(rng),
-                90..=92 => Op::Incoming { request: rng.chance(1, 2), tid, from: rng.below(NCORE as u64) as u8 },
+                90..=91 => Op::Incoming { request: rng.chance(1, 2), tid, from: rng.below(NCORE as u64) as u8 },
+                92 => Op::IncomingSigned { request: rng.chance(1, 2), tid, from: rng.below(NCORE as u64) as u8, cred: rng.below(4) as u8, good: rng.chance(1, 2) },
                 93..=94 => Op::Cancel(tid),
                 95..=96 => Op::CancelRetrans(tid),
                 _ => gen_configure(rng, tid),
@@ -1655,12 +1736,21 @@ pub fn gen_history(rng: &mut Rng, len: usize, ntid: u8, emphasis: &str) -> Histo
                 },
                 18..=49 => gen_poll(rng),
                 50..=69 => Op::Response { tid, from: rng.below(NCORE as u64) as u8, error: rng.chance(1, 4), seal: gen_resp_seal(rng), fp: rng.chance(1, 3) },
-                70..=77 => Op::Incoming { request: rng.chance(1, 2), tid, from: rng.below(NCORE as u64) as u8 },
+                70..=75 => Op::Incoming { request: rng.chance(1, 2), tid, from: rng.below(NCORE as u64) as u8 },
+                76..=77 => Op::IncomingSigned { request: rng.chance(1, 2), tid, from: rng.below(NCORE as u64) as u8, cred: rng.below(4) as u8, good: rng.chance(1, 2) },
                 78..=82 => Op::Cancel(tid),
                 83..=86 => Op::CancelRetrans(tid),
                 87..=92 => gen_configure(rng, tid),
                 93..=95 => Op::SetRemote(rng.below(3) as u8),
                 96 => Op::SetLocal(rng.below(4) as u8),
+                98 => {
+                    let inner = match rng.below(3) {
+                        0 => gen_poll(rng),
+                        1 => Op::Response { tid: rng.below(ntid as u64) as u8, from: rng.below(NCORE as u64) as u8, error: false, seal: RespSeal::Unsigned, fp: false },
+                        _ => Op::Incoming { request: true, tid, from: rng.below(NCORE as u64) as u8 },
+                    };
+                    Op::Via { holder: rng.below(ntid as u64) as u8, inner: Box::new(inner) }
+                }
                 97 => Op::SendData { dest: rng.below(NCORE as u64) as u8, len: rng.below(1500) as u16 },
                 _ => {
                     if rng.chance(1, 3) {
